@@ -21,7 +21,10 @@ EXPLANATION = (
   "clean-up loop follows the removal on every normal path, iterates the whole "
   "table._back_references of the table the rows were removed from, skips a referring column only "
   "when it is a formula column or not a reference column, asks each remaining column for its "
-  "updates for exactly the removed rows and emits every non-empty update; "
+  "updates for exactly the rows handed to the removal (the same binding of the ids, not merely a "
+  "variable of the same name) and emits every non-empty update; guards are decided by what a "
+  "path has established (any spelling: nested if, continue guard, named test), and a private "
+  "helper that is handed the column and its updates and always emits counts as the emission; "
   "get_updates_for_removed_target_rows covers every row the reverse index reports (R2); a "
   "reference column registers itself in its target table's _back_references when created and "
   "leaves on destroy, nobody else writes that set, and the reverse index (inverse_map) is updated "
@@ -88,7 +91,7 @@ def r2_cleanup_loop(run, w):
   # the loop over <table>._back_references
   def backrefs_iter(e):
     """(attribute node, whole?) when e iterates some <x>._back_references, else None."""
-    e = H.strip_wrappers(H.deref(fn, e))
+    e = H.deref(fn, H.strip_wrappers(H.deref(fn, e)))
     if isinstance(e, ast.Attribute) and e.attr == "_back_references":
       return (e, True)
     if isinstance(e, (ast.GeneratorExp, ast.ListComp, ast.SetComp)) and len(e.generators) == 1:
@@ -210,6 +213,25 @@ def r2_cleanup_loop(run, w):
                       isinstance(H.deref(fn, x.value), ast.Name) and
                       H.deref(fn, x.value).id == var, targs[0]):
       emit.add(n.id)
+  # ... or inside a private helper that is handed the column and its updates and always emits
+  def emits(c, nm, f):
+    if nm == "self._BulkUpdateRecord_decoded":
+      return True
+    if E.is_strict_gateway_call(c, nm, f) and c.args:
+      r = E.action_ctor(H.deref(f, c.args[0]), names)
+      return bool(r and r[0] == "BulkUpdateRecord")
+    return False
+  for (n, c, nm) in fn.calls():
+    if n.id in body and n.id not in emit and not emits(c, nm, fn):
+      hfi = H.self_method(w, fn, c)
+      if hfi is None or hfi.qualname == fn.qualname:
+        continue
+      given = list(c.args) + [k.value for k in c.keywords]
+      if any(H.is_var(fn, a, uvar) for a in given) and any(H.is_var(fn, a, var) for a in given):
+        h = w.fn_of(hfi)
+        inner = H.always_nodes(w, h, emits, depth=1)
+        if inner and h.cfg.dominated_by(h.cfg.exit.id, inner):
+          emit.add(n.id)
   truthy = lambda e: H.nonempty_value(fn, e, uvar)
   after_q = set(cfg.normal_succ(un.id))
   leak = H.reach_assuming(cfg, after_q, truthy, removed=emit) & stops
@@ -351,6 +373,26 @@ VARIANTS = [(a, b, c, d, "C10-R1") for (a, b, c, d) in C09_R1_VARIANTS] + [
    "    return [(row_id, self._raw_get_without(row_id, target_row_ids)) for row_id in affected_rows]",
    "    return [(row_id, self._raw_get_without(row_id, target_row_ids)) for row_id in affected_rows\n            if row_id not in target_row_ids]",
    "C10-R2"),
+  ("cleanup-for-ids-as-requested", U,
+   """    row_ids = [int(r) for r in row_ids_or_records]
+
+    # Replace negative ids that may refer to rows just added to this table in this bundle.
+    row_ids = self._engine.out_actions.summary.translate_new_row_ids(table_id, row_ids)
+
+    self._do_doc_action(actions.BulkRemoveRecord(table_id, row_ids))
+
+    # Also remove any references to this row from other tables.
+    row_id_set = set(row_ids)
+""",
+   """    row_ids = [int(r) for r in row_ids_or_records]
+    row_id_set = set(row_ids)
+
+    # Replace negative ids that may refer to rows just added to this table in this bundle.
+    row_ids = self._engine.out_actions.summary.translate_new_row_ids(table_id, row_ids)
+    self._do_doc_action(actions.BulkRemoveRecord(table_id, row_ids))
+
+    # Also remove any references to these rows from other tables.
+""", "C10-R2"),
   ("stale-table-after-rebinding", U,
    "    table = self._engine.tables[table_id]\n    assert all(isinstance(r, (int, table.Record)) for r in row_ids_or_records)\n    row_ids = [int(r) for r in row_ids_or_records]",
    "    table = self._engine.tables[table_id]\n    assert all(isinstance(r, (int, table.Record)) for r in row_ids_or_records)\n    row_ids = [int(r) for r in row_ids_or_records]\n    table = self._engine.tables.get('_grist_Tables', table)",
